@@ -1,6 +1,6 @@
 """W5: the repository's own test suite as a workload, run with ambient monitors on.
 
-    VERIF_W5_MONITORS=classdb,queue,equiv,table,ruledb,spec  VERIF_W5_OUT=<file> \
+    VERIF_W5_MONITORS=classdb,queue,equiv,table,ruledb,spec,objects,faithful,forest,diff,bijection  VERIF_W5_OUT=<file> \
         pytest -p vmon.pytest_plugin ...
 
 Monitors report into one context for the whole session; violations do not abort the tests
@@ -35,6 +35,14 @@ def pytest_configure(config):
             from vmon import m_spec as m
         elif name == "objects":
             from vmon import m_objects as m
+        elif name == "faithful":
+            from vmon import m_faithful as m
+        elif name == "forest":
+            from vmon import m_forest as m
+        elif name == "diff":
+            from vmon import m_diff as m
+        elif name == "bijection":
+            from vmon import m_bijection as m
         else:
             raise ValueError(name)
         m.install()
